@@ -34,7 +34,10 @@ struct ReplyWaiter {
 
 #[derive(Default)]
 struct Listeners {
+    #[cfg(not(trusttunnel_verif))]
     reply_waiters: HashMap<icmp_utils::Echo, ReplyWaiter>,
+    #[cfg(trusttunnel_verif)]
+    reply_waiters: HashMap<icmp_utils::Echo, ReplyWaiter, crate::verif::hash::SeededState>,
     deadlines: BTreeMap<Instant, LinkedList<icmp_utils::Echo>>,
 }
 
